@@ -109,6 +109,26 @@ def drive_codec_chunk(rng_):
     return [drive_codec(c) for c in range(lo, hi)]
 
 
+def _read(t, text):
+    """Read a text with the implementation; record the code, and how the result compares, hashes and prints against the
+    same operation built from the packed integer and from the matrix."""
+    import numpy as np
+    from chmpy.crystal.symmetry_operation import SymmetryOperation
+    t.update(code=-1, printed="", eq=False, hasheq=False)
+    try:
+        op = SymmetryOperation.from_string_code(text)
+        t["code"] = int(op.integer_code)
+        tw1 = SymmetryOperation.from_integer_code(t["code"])
+        tw2 = SymmetryOperation(np.array(op.rotation), np.array(op.translation))
+        t["eq"] = bool(op == tw1 and tw1 == op and op == tw2 and not (op != tw1))
+        t["hasheq"] = bool(hash(op) == hash(tw1) == hash(tw2) and op in {tw1} and tw1 in {op: 1})
+        t["printed"] = str(op)
+        if not (str(tw1) == str(tw2) == op.cif_form == t["printed"]):
+            t["printed"] = "<differs>" + t["printed"]
+    except Exception as e:
+        t["exc"] = type(e).__name__
+
+
 def drive(recipe):
     import numpy as np
     from chmpy.crystal.symmetry_operation import SymmetryOperation
@@ -119,17 +139,11 @@ def drive(recipe):
         c, styles, sep = recipe["c"], recipe["styles"], recipe["sep"]
         text = propose_spelling(c, styles, sep)
         t = {"k": k, "c": c, "styles": styles, "sep": sep, "text": text, "bytes": [ord(ch) for ch in text], "exc": "", "code": -1}
-        try:
-            t["code"] = int(SymmetryOperation.from_string_code(text).integer_code)
-        except Exception as e:
-            t["exc"] = type(e).__name__
+        _read(t, text)
     elif k == "text":
         text = recipe["text"]
         t = {"k": k, "bytes": [ord(ch) if ord(ch) < 256 else 63 for ch in text], "exc": "", "code": -1}
-        try:
-            t["code"] = int(SymmetryOperation.from_string_code(text).integer_code)
-        except Exception as e:
-            t["exc"] = type(e).__name__
+        _read(t, text)
     elif k == "shift":
         c, kv, noise, route = recipe["c"], recipe["kv"], recipe["noise"], recipe["route"]
         t = {"k": k, "c": c, "kv": kv, "noise": noise, "route": route, "exc": "", "code": -1, "text": "",
@@ -183,6 +197,14 @@ def drive(recipe):
                 sg = SpaceGroup(num, choice=choice) if choice else SpaceGroup(num)
                 uc = UnitCell.from_lengths_and_angles(cell[:3], cell[3:], unit="degrees")
                 cr = Crystal(uc, sg, AsymmetricUnit([Element["C"]], np.array([[0.1, 0.2, 0.3]])))
+                if recipe.get("warm"):
+                    # the crystal object was first used in the other trigonal setting and switched in place: the Cartesian
+                    # form asked for afterwards is that of the operations of the setting it is in now
+                    cr = Crystal(uc, SpaceGroup(num, choice=recipe["warm"]), AsymmetricUnit([Element["C"]], np.array([[0.1, 0.2, 0.3]])))
+                    cr.cartesian_symmetry_operations()
+                    cr.unit_cell_atoms()
+                    cr.choose_trigonal_lattice(choice)
+                    uc, sg = cr.unit_cell, cr.space_group
                 rc, tc = cr.cartesian_symmetry_operations()[idx]
                 assert int(sg.symmetry_operations[idx].integer_code) == c
                 cart = uc.to_cartesian(x)
@@ -248,6 +270,11 @@ def run(ctx):
                     rng.uniform(70, 110), rng.uniform(70, 110)]
             recipes.append({"k": "apply", "c": r["ops"][idx], "n": n, "pts": pts,
                             "sg": [r["number"], r["choice"], idx, cell]})
+            if r["number"] in (146, 148, 155, 160, 161, 166, 167) or rng.random() < 0.02:
+                rr = r if r["choice"] in ("H", "R") else rng.choice([q for q in rows if q["choice"] in ("H", "R")])
+                idx = rng.randrange(len(rr["ops"]))
+                recipes.append({"k": "apply", "c": rr["ops"][idx], "n": n, "pts": pts, "warm": "R" if rr["choice"] == "H" else "H",
+                                "sg": [rr["number"], rr["choice"], idx, cell], "src": "crystal switched in place"})
         else:
             recipes.append({"k": "apply", "c": rng.randrange(NCODES), "n": n, "pts": pts})
     # free texts, judged by the specification's own reader (SymopText.tla): the operation strings of the repository's
